@@ -21,7 +21,7 @@ from sr.symreal import SReal, conj, lift, model_value, sym_vector
 from . import replays
 
 
-from .c11_ground import _ground, configs
+from .c11_ground import LABEL_TYPES, _ground, configs, labels_for
 
 
 def q(v):
@@ -57,13 +57,13 @@ def run(check: Check) -> None:
     )
     check.info["rule"] = "configuration = (n, contrast+options, label type) for the ground/LRA part; (contrast, layout, reduced/full) for the pipeline part"
     nmax = 8
-    check.bounds.update({"n": f"1..{nmax}", "label_types": ["str", "int", "mixed-order str"], "poly_symbolic_scores_n": 3})
+    check.bounds.update({"n": f"1..{nmax}", "label_types": ["str", "int", "mixed-order str", "ints holding 0", "strings holding ''"], "poly_symbolic_scores_n": 3})
     check.out_of_scope += [f"n > {nmax} ('for every n' cannot be symbolic: n is an array shape)", "custom contrasts"]
     rec = FunctionRecorder(check.functions)
     with rec:
         for n in range(1, nmax + 1):
-            for ltype in ("str", "int", "mixed"):
-                labels = {"str": [f"l{k}" for k in range(n)], "int": list(range(10, 10 + n)), "mixed": [f"{'zyxwvuts'[k]}" for k in range(n)]}[ltype]
+            for ltype in LABEL_TYPES:
+                labels = labels_for(n, ltype)
                 if ltype != "str" and not thorough and n not in (1, 3, 5):
                     continue
                 for tag, contr, want, zero_sum in configs(n, labels):
